@@ -24,6 +24,9 @@ REFUTATION_PATTERNS = [
     "failed this postcondition",
     "might not terminate",
     "constructed value may fail to meet its declared type invariant",
+    "unable to prove post-condition of closure",
+    "unable to prove pre-condition",
+    "unable to prove assertion",
 ]
 UNDECIDED_PATTERNS = ["rlimit", "Resource limit", "timed out", "timeout"]
 
@@ -50,14 +53,16 @@ def _vacuity_copy(ex):
     text = ex.text()
     lines = text.split("\n")
     added = []
-    for a, b, label, _ in list(ex.fn_spans):
+    for idx, (a, b, label, _) in enumerate(list(ex.fn_spans)):
+        if label in getattr(ex, "novacuity", []):
+            continue
         seg = lines[a - 1:b]
         segtxt = "\n".join(seg)
         m = re.search(r"\bfn\s+(\w+)", segtxt)
         if not m:
             continue
         name = m.group(1)
-        new = segtxt[:m.start(1)] + name + "__vacuity" + segtxt[m.end(1):]
+        new = segtxt[:m.start(1)] + name + f"__vacuity{idx}" + segtxt[m.end(1):]
         # replace ensures clause (up to the body brace) by `ensures false`
         masked = extract.rustlex.mask(new)
         ob = extract.rustlex.first_open_brace(masked, m.end())
@@ -202,7 +207,13 @@ def _vacuity_pass(ex, res, scratch, rlimit, extra_args, timeout):
         if label not in cp:
             continue
         new = cp[label].split("\n")
-        lines[b:b] = new   # keep the original (other functions may call it), add the copy after it
+        # carry over attributes written in the template directly above the extracted item
+        k = a - 3   # lines[a-2] is the "// ---- extracted verbatim" marker
+        attrs = []
+        while k >= 0 and lines[k].strip().startswith("#["):
+            attrs.insert(0, lines[k])
+            k -= 1
+        lines[b:b] = attrs + new   # keep the original (other functions may call it), add the copy after it
     vtext = "\n".join(lines)
     # recompute spans by scanning for __vacuity fn names
     fname = res.file.replace(".rs", "__vacuity.rs")
@@ -227,14 +238,12 @@ def _vacuity_pass(ex, res, scratch, rlimit, extra_args, timeout):
                 continue
             ln = _primary_line(d)
             f = _enclosing_fn(vtext, ln) if ln else None
-            if f and f.endswith("__vacuity") and _classify([d])[0] == "refuted":
+            if f and re.search(r"__vacuity\d+$", f) and _classify([d])[0] == "refuted":
                 refuted.add(f)
-    names = set(re.findall(r"\bfn\s+(\w+__vacuity)\b", vtext))
+    names = set(re.findall(r"\bfn\s+(\w+__vacuity\d+)\b", vtext))
     res.vacuity_total += len(names)
     res.vacuity_ok += len(names & refuted)
     missing = sorted(names - refuted)
-    novac = set(getattr(ex, "novacuity", []))
-    missing = [m for m in missing if m not in novac]
     if missing:
         res.tool_error = ("VACUITY: `ensures false` copy verified (contradictory precondition/preamble or "
                           "non-returning body) for: " + ", ".join(missing) + " :: " + p.stderr[-600:])
